@@ -34,6 +34,13 @@ var quietLogger = func() *logrus.Logger {
 
 var deletionTime = meta_v1.NewTime(time.Unix(1_700_000_000, 0))
 
+func nodeOf(s *podSpec) string {
+	if s.Node == "" {
+		return "node1"
+	}
+	return s.Node
+}
+
 func mkPod(s *podSpec) *core_v1.Pod {
 	p := &core_v1.Pod{
 		ObjectMeta: meta_v1.ObjectMeta{
@@ -43,7 +50,7 @@ func mkPod(s *podSpec) *core_v1.Pod {
 			Annotations:     cloneMap(s.Annotations),
 			ResourceVersion: fmt.Sprint(s.RV),
 		},
-		Spec:   core_v1.PodSpec{HostNetwork: s.HostNetwork, NodeName: "node1"},
+		Spec:   core_v1.PodSpec{HostNetwork: s.HostNetwork, NodeName: nodeOf(s)},
 		Status: core_v1.PodStatus{Phase: core_v1.PodPhase(s.Phase), HostIP: s.HostIP, PodIP: s.PodIP},
 	}
 	if s.Deleting {
@@ -70,6 +77,14 @@ type engine struct {
 	runDone chan struct{}
 	events  chan string
 	sinkMu  sync.Mutex
+
+	// config: provider built from configuration text against the scripted API server
+	api   *apiServer
+	dir   string
+	hooks bool
+
+	// consumers of lookup answers
+	pipe *pipeline
 }
 
 func newEngine(kind string, cfg *config) (*engine, error) {
@@ -117,6 +132,14 @@ func newEngine(kind string, cfg *config) (*engine, error) {
 }
 
 func (e *engine) close() {
+	if e.kind == "config" {
+		if e.cancel != nil {
+			e.cancel()
+			<-e.runDone
+		}
+		e.closeConfig()
+		return
+	}
 	if e.kind != "informer" {
 		return
 	}
@@ -192,7 +215,7 @@ func (e *engine) apply(o *op) error {
 
 // peek looks an IP up, through Peek or through the IpSink/InfoSource pair served by Provider.Run.
 func (e *engine) peek(ip string, sink bool) (*answer, error) {
-	if !sink || e.kind != "informer" {
+	if !sink || e.kind == "direct" {
 		inst, hit := e.p.Peek(gostatsd.Source(ip))
 		if !hit {
 			return nil, fmt.Errorf("Peek reported a cache miss")
